@@ -39,3 +39,20 @@ Definition run_msc (min_step dtrl small : float) mv mf mb mp rv rf rb rp
                                    emass energy lambda range t in
          (g, a, map (msc_from_geo min_step small t a range lambda)
                     [g; PrimFloat.next_down g; PrimFloat.mul g 0x1p-1%float; PrimFloat.mul g 0x1.0624dd2f1a9fcp-10%float])) ts.
+
+(** GenericCalculator (operator(), from_inverse / make_inverse) *)
+From Celer Require Import C14.Generic.
+Definition run_generic (xs ys qs : list float) : list float :=
+  map (generic_calc {| gg_x := xs; gg_y := ys |}) qs.
+Definition run_generic_inv (xs ys qs : list float) : list float :=
+  map (generic_calc (generic_inverse {| gg_x := xs; gg_y := ys |})) qs.
+
+(** ValueGridXsBuilder::from_geant: (does not throw, constructor arguments, the
+    CELER_EXPECTs hold); default SoftEqual tolerances 1e-12 / 1e-14 *)
+Definition se_rel : float := 0x1.19799812dea11p-40%float.
+Definition se_abs : float := 0x1.6849b86a12b9bp-47%float.
+Definition run_from_geant (le l pe lp : list float) : option (float * float * float * list float) * bool :=
+  (match from_geant se_rel se_abs le l pe lp with
+   | XsThrow => None
+   | XsArgs emin eprime emax xs => Some (emin, eprime, emax, xs)
+   end, from_geant_expects se_rel se_abs le l pe lp).
